@@ -1,10 +1,21 @@
+import os, sys
+sys.path.insert(0, os.path.dirname(os.path.dirname(os.path.abspath(__file__))))
+import checklib
+
+
+def regen(ctx):
+    return checklib.regen_skeletons(ctx, ["kvstore/sequence.go:Sequence.Next", "kvstore/sequence.go:Sequence.Release",
+                                          "kvstore/sequence.go:Sequence.update"], extra_methods=["Set", "Get"])
+
+
 SPEC = {
     "lean_props": "Hive.Props.C07",
+    "regen": regen,
     "lean_namespace": "Hive.Seq",
     "driver": "drv_c07",
     "harness": "c07",
     "theorems": ["C07_strictly_increasing", "C07_release_wastes_none", "C07_crash_wastes_le_interval",
-                 "C07_next_returns_frontier", "C07_budget_step"],
+                 "C07_next_returns_frontier", "C07_budget_step", "C07_skeleton_next", "C07_skeleton_release", "C07_skeleton_update"],
     "trusted_base": ["hand-written model Hive/Model/Seq.lean of kvstore/sequence.go, tied by differential execution (harness/c07)",
                      "Go toolchain, compiled Lean driver"],
     "modelled": ["kvstore.Sequence Next/Release/update/NewSequence as micro-steps over one stored mark",
